@@ -81,6 +81,7 @@ typedef struct qgen {
 	int main_tree;       // queues may target the main queue; any item outside that tree may dispatch_sync into it
 	int specific;        // set queue-specific keys
 	int blockobj;        // barrier items may be DISPATCH_BLOCK_BARRIER block objects
+	int suspend_inactive; // suspend/resume may also hit queues that have not been activated yet
 	int no_privblocks;   // 1: never replace a block literal by a dispatch_block_create(0, ...) object
 } qgen;
 
